@@ -4,7 +4,7 @@
   The proof needs `Pend`: the `start` of a tracker always finds an entry for the system, because every pending command
   that uses the tracker has a prepared entry.
 -/
-import Cobweb.Proofs.Pending
+import Cobweb.Proofs.PendingD
 
 namespace Cobweb
 
@@ -97,43 +97,23 @@ end Cobweb
 
 namespace Cobweb
 
-theorem TrkData.start_reacting (t : TrkData) (sys : Nat) (h : sys ∈ t.prepared.map (·.1)) : (t.start sys).reacting = true := by
-  rcases first_match_perm t.prepared sys with ⟨_, hn⟩ | ⟨j, x, hf, hget, _, _, _⟩
-  · exact absurd h hn
-  · obtain ⟨a, b⟩ := x
-    simp [TrkData.start, hf, hget]
+theorem flagOf_eq_reactingOf (T : TrkId) (s : St) : flagOf T s = reactingOf T s := by cases T <;> rfl
 
-theorem TrkEnt.start_reacting (t : TrkEnt) (sys : Nat) (h : sys ∈ t.prepared.map (·.1)) : (t.start sys).reacting = true := by
-  rcases first_match_perm t.prepared sys with ⟨_, hn⟩ | ⟨j, x, hf, hget, _, _, _⟩
-  · exact absurd h hn
-  · obtain ⟨a, b, c⟩ := x
-    simp [TrkEnt.start, hf, hget]
+/-- `setup` flags every tracker the kind uses, provided the tracker holds the command's own entry. -/
+theorem setupK_sets (T : TrkId) (s : St) (k : Kind) (sys : Nat) (hu : uses T k = true)
+    (hin : ∀ key, keyOf T k = some key → (sys, key) ∈ prepD T s) : flagOf T (setupK s k sys) = true := by
+  rw [flagOf_eq_reactingOf]
+  cases hk : keyOf T k with
+  | none => rw [keyOf_none hk] at hu; cases hu
+  | some key => exact (prepD_setupK_used T s k sys key hk (hin key hk)).2.2
 
-theorem TrkDsp.start_reacting (t : TrkDsp) (sys : Nat) (h : sys ∈ t.prepared.map (·.1)) : (t.start sys).1.reacting = true := by
-  rcases first_match_perm t.prepared sys with ⟨_, hn⟩ | ⟨j, x, hf, hget, _, _, _⟩
-  · exact absurd h hn
-  · obtain ⟨a, b, c⟩ := x
-    simp [TrkDsp.start, hf, hget]
-
-/-- `setup` flags every tracker the kind uses, provided the tracker holds an entry for the system. -/
-theorem setupK_sets (T : TrkId) (s : St) (k : Kind) (sys : Nat) (hu : uses T k = true) (hin : sys ∈ prep T s) :
-    flagOf T (setupK s k sys) = true := by
-  cases T <;> cases k <;> simp [uses, usesSys, usesEvt, usesEnt, usesDsp] at hu <;> simp only [flagOf, setupK, prep] at *
-  · exact TrkData.start_reacting _ _ hin
-  · exact TrkData.start_reacting _ _ hin
-  · exact TrkData.start_reacting _ _ hin
-  · exact TrkEnt.start_reacting _ _ hin
-  · exact TrkEnt.start_reacting _ _ hin
-  · have := TrkDsp.start_reacting s.trkDsp sys hin
-    split <;> simpa using this
-
-/-- A pending command that uses tracker `T` has a prepared entry there. -/
-theorem prep_mem_of_pending {s : St} (hp : Pend s) (T : TrkId) (sys : Nat) (k : Kind) (hu : uses T k = true)
-    (hin : (sys, k) ∈ allPending s) : sys ∈ prep T s := by
+/-- A pending command that uses tracker `T` has its own prepared entry there. -/
+theorem prepD_mem_of_pending {s : St} (hp : PendD s) (T : TrkId) (sys : Nat) (k : Kind) (key : Key) (hk : keyOf T k = some key)
+    (hin : (sys, k) ∈ allPending s) : (sys, key) ∈ prepD T s := by
   have := hp T
   apply this.mem_iff.mpr
-  simp only [pend, List.mem_map, List.mem_filter]
-  exact ⟨(sys, k), ⟨hin, hu⟩, rfl⟩
+  simp only [pendD, List.mem_filterMap]
+  exact ⟨(sys, k), hin, by simp [hk]⟩
 
 end Cobweb
 
@@ -144,7 +124,7 @@ theorem cleanList_head_not_cleanup {cs tl : List Cmd} {k : Kind} (h : cleanList 
   simp [isCleanup] at this
 
 /-- **Between setup and cleanup the used trackers are flagged** — preserved by every frame. -/
-theorem used_runFrame (p : Prog) (hh : Hist) {s : St} {f : Frame} {rest : List Frame} (hf : FlagInv s) (hp : Pend s)
+theorem used_runFrame (p : Prog) (hh : Hist) {s : St} {f : Frame} {rest : List Frame} (hf : FlagInv s) (hp : PendD s)
     (hu : Used s) (hs : s.stack = f :: rest) : Used (runFrame p hh { s with stack := rest } f) := by
   have htop : TopOK s f := by have := hf.top; rw [hs] at this; exact this
   have hrest : allOK rest := by have := hf.below; rw [hs] at this; exact this
@@ -282,11 +262,11 @@ theorem used_runFrame (p : Prog) (hh : Hist) {s : St} {f : Frame} {rest : List F
         · exact habort _
         · exact hpop _ (by simp [St.emit]) (by simp [St.emit]; exact hw)
       · -- the callback is taken
-        have hin : ∀ T, uses T k = true → sys ∈ prep T s := fun T h =>
-          prep_mem_of_pending hp T sys k h (by simp [allPending, hs, stackPending_cons, framePending])
+        have hin : ∀ T key, keyOf T k = some key → (sys, key) ∈ prepD T s := fun T key h =>
+          prepD_mem_of_pending hp T sys k key h (by simp [allPending, hs, stackPending_cons, framePending])
         have hset : ∀ T, uses T k = true →
             flagOf T (setupK ({ s with stack := rest, storage := upd s.storage sys (some false), counter := s.counter + 1 } : St) k sys) = true :=
-          fun T h => setupK_sets T _ k sys h (by have := hin T h; cases T <;> exact this)
+          fun T h => setupK_sets T _ k sys h (fun key hk => by have := hin T key hk; cases T <;> exact this)
         have hsb : ∀ T, flagOf T (startBody ({ s with stack := rest, storage := upd s.storage sys (some false), counter := s.counter + 1 } : St) sys k) =
             flagOf T (setupK ({ s with stack := rest, storage := upd s.storage sys (some false), counter := s.counter + 1 } : St) k sys) :=
           fun T => flagOf_of_Fl (Fl_startBody _ sys k) T
@@ -413,7 +393,7 @@ theorem used_startTop {s : St} (hst : s.stack = []) (hw : s.wq = []) (t : Nat) (
     · exact used_of_allOK (by simp [St.emit, hst]; exact allOK_nil) (by simp [St.emit, hw])
   case sigThreads a n => exact used_of_top (g := .gc) (rest := []) (by simp [St.push, St.emit, hst]) trivial
 
-theorem used_tick (p : Prog) (hh : Hist) {s s' : St} (hf : FlagInv s) (hp : Pend s) (hu : Used s)
+theorem used_tick (p : Prog) (hh : Hist) {s s' : St} (hf : FlagInv s) (hp : PendD s) (hu : Used s)
     (ht : tick p hh s = some s') : Used s' := by
   unfold tick at ht
   split at ht
@@ -446,14 +426,17 @@ structure Inv5 (s : St) : Prop where
   ctl : Ctl s
   once : OnceInv s
   flag : FlagInv s
-  pend : Pend s
+  pendD : PendD s
   used : Used s
 
-theorem inv5_tick (p : Prog) (hh : Hist) {s s' : St} (h : Inv5 s) (ht : tick p hh s = some s') : Inv5 s' :=
-  ⟨ctl_tick p hh h.ctl ht, once_tick p hh h.ctl h.once ht, flag_tick p hh h.ctl h.once h.flag ht, pend_tick p hh h.pend ht,
-   used_tick p hh h.flag h.pend h.used ht⟩
+/-- The system-level pending invariant. -/
+theorem Inv5.pend {s : St} (h : Inv5 s) : Pend s := pend_of_pendD h.pendD
 
-theorem inv5_default : Inv5 ({} : St) := ⟨ctl_default, once_default, flag_default, pend_default, used_default⟩
+theorem inv5_tick (p : Prog) (hh : Hist) {s s' : St} (h : Inv5 s) (ht : tick p hh s = some s') : Inv5 s' :=
+  ⟨ctl_tick p hh h.ctl ht, once_tick p hh h.ctl h.once ht, flag_tick p hh h.ctl h.once h.flag ht, pendD_tick p hh h.pendD ht,
+   used_tick p hh h.flag h.pendD h.used ht⟩
+
+theorem inv5_default : Inv5 ({} : St) := ⟨ctl_default, once_default, flag_default, pendD_default, used_default⟩
 
 theorem inv5_reach (p : Prog) (hh : Hist) {s0 s : St} (h0 : Inv5 s0) (hr : Reach p hh s0 s) : Inv5 s := by
   induction hr with
